@@ -187,6 +187,9 @@ def loader_checks(res, WE, out, table, label):
     chmap = np.load(out / "waveforms.channels.npz")["channels"]
     wfs, info, ch = ld.load_waveforms()
     res.count("loader_checks")
+    # a loader is re-usable: the same request a second time, and after other requests, returns the same arrays
+    wfs_b, info_b, ch_b = ld.load_waveforms()
+    res.check(np.array_equal(wfs_b, wfs, equal_nan=True) and np.array_equal(ch_b, ch) and info_b.equals(info), "loader:repeat-call", f"{label}: a second load_waveforms() differs from the first")
     res.check(np.array_equal(wfs, tr, equal_nan=True) and np.array_equal(ch, chmap) and len(info) == len(table), "loader:all", f"{label}: load_waveforms() does not return what was saved")
     units = np.unique(table["cluster"])
     if units.size:
